@@ -612,7 +612,13 @@ class Folder:
                     sty, lo, hi = st.sym
                     if ty in INT_BITS and fits(ty, lo) and fits(ty, hi):
                         return v
-                    raise _Abort("top", "truncating cast of the symbolic parameter")
+                    if ty in INT_BITS and fits(ty, lo) and lo >= 0:
+                        # the interval straddles the target type's maximum: the part that fits goes on, the rest is refused
+                        tmax = ty_range(ty)[1]
+                        raise _Fork([(lo, tmax), (tmax + 1, hi)])
+                    # every value of the interval is truncated: the narrowed copy is unknown (a use of it stops the evaluation,
+                    # an unused narrowed copy is harmless)
+                    return TOP
                 if ty not in INT_BITS:
                     if ty == "char" and v[0] == "int":
                         return ("char", v[2])
